@@ -41,10 +41,45 @@ def direct(rec, m, acct):
         return None
 
 
+_API_CALLS = [0]
+
+
 def api(rec, blz, acct):
-    from ..lib import IBAN, SchwiftyException, frame_of
+    from ..lib import BBAN, IBAN, SchwiftyException, frame_of
     bban = blz + acct
     text = "DE" + canonical_digits("DE", bban) + bban
+    _API_CALLS[0] += 1
+    n = _API_CALLS[0]
+    if n % 3 == 0:
+        # the same 18 digits are a structurally valid BBAN of other countries (CR, ME, RS, VA): judging those first
+        # must not change what Germany's method says ("depends on nothing but the method and the account number")
+        from ._shared import sibling_ibans
+        for y, t in sibling_ibans("DE", bban):
+            try:
+                IBAN(t, validate_bban=True)
+            except SchwiftyException:
+                pass
+            rec.classes["sibling-warmup"] += 1
+    if n % 5 == 0:
+        # other ways of handing over the same IBAN with national validation requested must agree with the constructor
+        verdicts = {}
+        forms = {"from_bban-str": lambda: IBAN.from_bban("DE", bban, validate_bban=True),
+                 "from_bban-object": lambda: IBAN.from_bban("DE", BBAN("DE", bban), validate_bban=True),
+                 "validate": lambda: IBAN(text, allow_invalid=True).validate(validate_bban=True),
+                 "own-object": lambda: IBAN(IBAN(text, allow_invalid=True), validate_bban=True),
+                 "ctor": lambda: IBAN(text, validate_bban=True)}
+        for name, fn in forms.items():
+            try:
+                fn()
+                verdicts[name] = True
+            except SchwiftyException:
+                verdicts[name] = False
+            except Exception as e:  # noqa: BLE001
+                verdicts[name] = f"crash:{type(e).__name__}"
+        rec.classes["argument-forms"] += 1
+        if len(set(map(str, verdicts.values()))) != 1:
+            rec.fail("api_forms_disagree|" + ",".join(sorted(k for k, v in verdicts.items() if v != verdicts["ctor"])),
+                     "de_api_forms_agree", {"bank_code": blz, "account": acct, "forms": True}, verdicts["ctor"], verdicts)
     try:
         IBAN(text, validate_bban=True)
         return True
@@ -79,6 +114,12 @@ def check_method(rec, m, acct, blz=None):
 def replay(rec, case):
     i = case["input"]
     st = state()
+    global api
+    plain_api = api
+
+    def api(rec_, blz, acct):      # noqa: F811 - every replayed call includes the sibling warm-up and the argument forms
+        _API_CALLS[0] = 14
+        return plain_api(rec_, blz, acct)
     if "method" in i:
         check_method(rec, i["method"], i["account"], i.get("bank_code"))
     elif "pair" in i:
@@ -253,7 +294,7 @@ def run(ctx):
         need.append(f"{m}-accept")
         if m != "09":
             need.append(f"{m}-reject")
-    ctx.require_classes("bank-implemented", "bank-unimplemented-method", "bank-unlisted", "metamorphic-pair", *need)
+    ctx.require_classes("sibling-warmup", "argument-forms", "bank-implemented", "bank-unimplemented-method", "bank-unlisted", "metamorphic-pair", *need)
     ctx.extra["per_method"] = {m: {"accept": ctx.rec.classes.get(f"{m}-accept", 0), "reject": ctx.rec.classes.get(f"{m}-reject", 0),
                                    "undecided": ctx.rec.classes.get(f"{m}-undecided", 0)} for m in st["impl"]}
     ctx.extra["implemented_methods"] = len(st["impl"])
